@@ -417,7 +417,8 @@ def link_replay(oid, extra):
 
 
 EXTRA = [battery_step]
-CASES = []
+from props.C08 import seed_case as _seed_case
+CASES = [_seed_case("C14")]       # reproducibility for a given seed starts with the script keeping the seed it was given
 if z3 is not None:
     CASES.append(transposition_case("double"))
     CASES.append(transposition_case("int"))
